@@ -473,27 +473,38 @@ func (p *parser) parseOperatorOverloading(params []ast.ParameterInfo, returnType
 		p.err(ddperror.SYN_INVALID_OPERATOR, operator_token.Range, fmt.Sprintf("'%s' steht nicht für einen Operator", operator_name))
 	}
 
+	paramCountValid := true
 	switch op := operator.(type) {
 	case ast.UnaryOperator:
 		if len(params) != 1 {
 			p.err(ddperror.SEM_BAD_OPERATOR_PARAMS, operator_token.Range, fmt.Sprintf("Der '%s' Operator erwartet nur einen Parameter, aber hat %d bekommen", op, len(params)))
+			paramCountValid = false
 		}
 	case ast.BinaryOperator:
 		if len(params) != 2 {
 			p.err(ddperror.SEM_BAD_OPERATOR_PARAMS, operator_token.Range, fmt.Sprintf("Der '%s' Operator erwartet zwei Parameter, aber hat %d bekommen", op, len(params)))
+			paramCountValid = false
 		}
 	case ast.TernaryOperator:
 		if len(params) != 3 {
 			p.err(ddperror.SEM_BAD_OPERATOR_PARAMS, operator_token.Range, fmt.Sprintf("Der '%s' Operator erwartet drei Parameter, aber hat %d bekommen", op, len(params)))
+			paramCountValid = false
 		}
 	case ast.CastOperator:
 		if len(params) != 1 {
 			p.err(ddperror.SEM_BAD_OPERATOR_PARAMS, operator_token.Range, fmt.Sprintf("Der '%s' Operator erwartet nur einen Parameter, aber hat %d bekommen", op, len(params)))
+			paramCountValid = false
 		}
 	}
 
 	if ddptypes.IsVoid(returnType) {
 		p.err(ddperror.TYP_BAD_OPERATOR_RETURN_TYPE, operator_token.Range, "Ein Operator muss einen Wert zurückgeben")
+	}
+
+	// an overload with the wrong number of parameters must not be registered,
+	// as everything that looks up overloads relies on the parameter count
+	if !paramCountValid {
+		return nil
 	}
 
 	return operator
